@@ -32,7 +32,7 @@ impl<'a> WireFormat<'a> for AFSDB<'a> {
     where
         Self: Sized,
     {
-        let subtype = u16::from_be_bytes(data[*position..*position + 2].try_into()?);
+        let subtype = u16::from_be_bytes(data.get(*position..*position + 2).ok_or(crate::SimpleDnsError::InsufficientData)?.try_into()?);
         *position += 2;
         let hostname = Name::parse(data, position)?;
 
